@@ -2,19 +2,45 @@ import LexgenModel.Model.Codegen
 /-!
 # Index arithmetic of the state renumbering done by code generation
 
-States with exactly one predecessor are inlined and get no `match self.0.__state` arm; the
+States that are inlined at their only transition site (`isInlined`: not initial, exactly one
+predecessor, reached from it through exactly one arm) get no `match self.0.__state` arm; the
 remaining states are renumbered consecutively, and the arm with the largest number gets the
 pattern `_`.  This file proves that the number stored in `__state` for a state that has an arm
 selects exactly the arm holding that state's code.
 -/
 namespace Lexgen
 
-/-- the state has its own `match` arm (it is not inlined at its transition sites) -/
-def hasArm (d : DFA Trans) (s : Nat) : Bool := !((d.st s).preds.length == 1 && !(d.st s).initial)
+/-- the state has its own `match` arm (it is not inlined at its transition site) -/
+def hasArm (d : DFA Trans) (s : Nat) : Bool := !isInlined d s
 
-/-- initial states are never single-predecessor states (they have no predecessors at all) -/
+/-- initial states are never inlined (now true by definition of `isInlined`) -/
 def InitialNotInlined (d : DFA Trans) : Prop :=
-  ∀ i, i < d.length → (d.st i).initial = true → ¬ ((d.st i).preds.length = 1)
+  ∀ i, i < d.length → (d.st i).initial = true → isInlined d i = false
+
+/-- an initial state is not inlined -/
+theorem isInlined_of_initial (d : DFA Trans) (i : Nat) (h : (d.st i).initial = true) :
+    isInlined d i = false := by
+  unfold isInlined
+  rw [h]
+  rfl
+
+/-- a state that is not inlined at its transition site has its own arm -/
+theorem hasArm_of_not_inlinedAt (d : DFA Trans) (t : Nat) (h : inlinedAt d t = false) :
+    hasArm d t = true := by
+  unfold inlinedAt at h
+  unfold hasArm
+  rw [h]
+  rfl
+
+theorem initialNotInlined (d : DFA Trans) : InitialNotInlined d :=
+  fun i _ h => isInlined_of_initial d i h
+
+/-- an initial state has its own arm -/
+theorem hasArm_of_initial (d : DFA Trans) (i : Nat) (h : (d.st i).initial = true) :
+    hasArm d i = true := by
+  unfold hasArm
+  rw [isInlined_of_initial d i h]
+  rfl
 
 namespace Dispatch
 
@@ -132,9 +158,6 @@ theorem dispatch_append_some (l1 l2 : List (Pat × Nat)) (n s : Nat)
 
 /-! ## The arms of a DFA -/
 
-/-- the "exactly one predecessor" predicate of `inlinedStates` -/
-def onePred (d : DFA Trans) (i : Nat) : Bool := (d.st i).preds.length == 1
-
 /-- the arm generated for state `i` -/
 def armOf (d : DFA Trans) (i : Nat) : Pat × Nat :=
   (if renumber (inlinedStates d) i == d.length - (inlinedStates d).length - 1 then Pat.wild
@@ -145,73 +168,71 @@ def armsUpTo (d : DFA Trans) (n : Nat) : List (Pat × Nat) :=
   ((List.range n).filter (hasArm d)).map (armOf d)
 
 theorem inlinedStates_eq (d : DFA Trans) :
-    inlinedStates d = (List.range d.length).filter (onePred d) := rfl
+    inlinedStates d = (List.range d.length).filter (isInlined d) := rfl
 
 theorem stateArms_eq (d : DFA Trans) : stateArms d = armsUpTo d d.length := rfl
 
-theorem onePred_compl (d : DFA Trans) (hI : InitialNotInlined d) (i : Nat) (hi : i < d.length) :
-    onePred d i = !hasArm d i := by
-  have h := hI i hi
-  unfold onePred hasArm
-  cases h1 : (d.st i).initial
-  · simp
-  · cases h2 : ((d.st i).preds.length == 1)
-    · simp
-    · exact absurd (eq_of_beq h2) (h h1)
+theorem isInlined_compl (d : DFA Trans) (i : Nat) : isInlined d i = !hasArm d i := by
+  unfold hasArm
+  cases isInlined d i <;> rfl
 
-/-- under `InitialNotInlined`, the inlined states are exactly the states without an arm -/
-theorem mem_inlinedStates_iff (d : DFA Trans) (hI : InitialNotInlined d) (i : Nat)
+theorem mem_inlinedStates (d : DFA Trans) (i : Nat) :
+    i ∈ inlinedStates d ↔ i < d.length ∧ isInlined d i = true := by
+  rw [inlinedStates_eq, List.mem_filter, List.mem_range]
+
+/-- the inlined states are exactly the states without an arm -/
+theorem mem_inlinedStates_iff (d : DFA Trans) (i : Nat)
     (hi : i < d.length) : i ∈ inlinedStates d ↔ hasArm d i = false := by
-  rw [inlinedStates_eq, List.mem_filter, List.mem_range, onePred_compl d hI i hi]
+  rw [mem_inlinedStates, isInlined_compl]
   cases hasArm d i <;> simp [hi]
 
-theorem renumber_eq (d : DFA Trans) (hI : InitialNotInlined d) (s : Nat) (hs : s ≤ d.length) :
+theorem renumber_eq (d : DFA Trans) (s : Nat) (hs : s ≤ d.length) :
     renumber (inlinedStates d) s = cnt (hasArm d) s :=
-  renumber_eq_cnt (onePred d) (hasArm d) d.length (onePred_compl d hI) s hs
+  renumber_eq_cnt (isInlined d) (hasArm d) d.length (fun i _ => isInlined_compl d i) s hs
 
 /-- the number of arms -/
-theorem arms_count (d : DFA Trans) (hI : InitialNotInlined d) :
+theorem arms_count (d : DFA Trans) :
     d.length - (inlinedStates d).length = cnt (hasArm d) d.length := by
-  have hc := cnt_compl (onePred d) (hasArm d) d.length (onePred_compl d hI) d.length
+  have hc := cnt_compl (isInlined d) (hasArm d) d.length (fun i _ => isInlined_compl d i) d.length
     (Nat.le_refl _)
-  have : (inlinedStates d).length = cnt (onePred d) d.length := rfl
+  have : (inlinedStates d).length = cnt (isInlined d) d.length := rfl
   omega
 
 /-- arms of smaller states carry a different number -/
-theorem arm_before (d : DFA Trans) (hI : InitialNotInlined d) (i s : Nat) (his : i < s)
+theorem arm_before (d : DFA Trans) (i s : Nat) (his : i < s)
     (hs : s < d.length) (ai : hasArm d i = true) (as : hasArm d s = true) :
     ∃ k, (armOf d i).1 = Pat.num k ∧ k ≠ cnt (hasArm d) s := by
   have h1 := cnt_lt_of_true (hasArm d) his ai
   have h2 := cnt_lt_of_true (hasArm d) hs as
-  have hr := renumber_eq d hI i (by omega)
-  have hc := arms_count d hI
+  have hr := renumber_eq d i (by omega)
+  have hc := arms_count d
   refine ⟨cnt (hasArm d) i, ?_, by omega⟩
   have hne : ¬ (cnt (hasArm d) i = d.length - (inlinedStates d).length - 1) := by
     omega
   simp only [armOf, beq_iff_eq, hr, if_neg hne]
 
 /-- the arm of `s` matches its number -/
-theorem arm_at (d : DFA Trans) (hI : InitialNotInlined d) (s : Nat) (hs : s < d.length) :
+theorem arm_at (d : DFA Trans) (s : Nat) (hs : s < d.length) :
     dispatch [armOf d s] (cnt (hasArm d) s) = some s := by
-  have hr := renumber_eq d hI s (by omega)
+  have hr := renumber_eq d s (by omega)
   unfold armOf
   rw [hr]
   by_cases h : cnt (hasArm d) s = d.length - (inlinedStates d).length - 1
   · simp only [beq_iff_eq, if_pos h, dispatch]
   · simp only [beq_iff_eq, if_neg h, dispatch, if_true]
 
-theorem dispatch_armsUpTo_succ (d : DFA Trans) (hI : InitialNotInlined d) (s : Nat)
+theorem dispatch_armsUpTo_succ (d : DFA Trans) (s : Nat)
     (hs : s < d.length) (as : hasArm d s = true) :
     dispatch (armsUpTo d (s + 1)) (cnt (hasArm d) s) = some s := by
   unfold armsUpTo
   rw [List.range_succ, List.filter_append, List.map_append]
   have hf : List.filter (hasArm d) [s] = [s] := by simp [as]
   rw [hf, List.map_cons, List.map_nil, dispatch_append_skip]
-  · exact arm_at d hI s hs
+  · exact arm_at d s hs
   · intro x hx
     obtain ⟨i, hi, rfl⟩ := List.mem_map.1 hx
     have hi' := List.mem_filter.1 hi
-    exact arm_before d hI i s (List.mem_range.1 hi'.1) hs hi'.2 as
+    exact arm_before d i s (List.mem_range.1 hi'.1) hs hi'.2 as
 
 theorem armsUpTo_add (d : DFA Trans) (m k : Nat) :
     ∃ l, armsUpTo d (m + k) = armsUpTo d m ++ l := by
@@ -228,25 +249,27 @@ set_option linter.unusedVariables false in
 theorem renumber_strictMono (d : DFA Trans) (hI : InitialNotInlined d) (s t : Nat)
     (hs : s < d.length) (ht : t < d.length) (hst : s < t) (as : hasArm d s = true) (at_ : hasArm d t = true) :
     renumber (inlinedStates d) s < renumber (inlinedStates d) t := by
-  rw [renumber_eq d hI s (by omega), renumber_eq d hI t (by omega)]
+  rw [renumber_eq d s (by omega), renumber_eq d t (by omega)]
   exact cnt_lt_of_true (hasArm d) hst as
 
+set_option linter.unusedVariables false in
 /-- every renumbered index is below the number of arms -/
 theorem renumber_lt_arms (d : DFA Trans) (hI : InitialNotInlined d) (s : Nat) (hs : s < d.length) (as : hasArm d s = true) :
     renumber (inlinedStates d) s < d.length - (inlinedStates d).length := by
-  rw [renumber_eq d hI s (by omega), arms_count d hI]
+  rw [renumber_eq d s (by omega), arms_count d]
   exact cnt_lt_of_true (hasArm d) hs as
 
+set_option linter.unusedVariables false in
 /-- The number stored in `__state` for a state with an arm selects exactly that state's arm
 (including the `_` arm of the largest number). -/
 theorem dispatch_correct (d : DFA Trans) (hI : InitialNotInlined d) (s : Nat) (hs : s < d.length)
     (as : hasArm d s = true) :
     dispatch (stateArms d) (renumber (inlinedStates d) s) = some s := by
-  rw [renumber_eq d hI s (by omega), stateArms_eq]
+  rw [renumber_eq d s (by omega), stateArms_eq]
   have hL : d.length = (s + 1) + (d.length - (s + 1)) := by omega
   obtain ⟨l, hl⟩ := armsUpTo_add d (s + 1) (d.length - (s + 1))
   rw [hL, hl]
-  exact dispatch_append_some _ _ _ _ (dispatch_armsUpTo_succ d hI s hs as)
+  exact dispatch_append_some _ _ _ _ (dispatch_armsUpTo_succ d s hs as)
 
 /-- `switch` stores the number whose arm is the entry state of the named rule set. -/
 theorem switch_correct (d : DFA Trans) (hI : InitialNotInlined d) (entries : List (String × Nat)) (name : String) (e : Nat)
@@ -255,21 +278,33 @@ theorem switch_correct (d : DFA Trans) (hI : InitialNotInlined d) (entries : Lis
   refine ⟨renumber (inlinedStates d) e, ?_, ?_⟩
   · unfold switchTable
     exact List.mem_map.2 ⟨(name, e), he, rfl⟩
-  · apply dispatch_correct d hI e hlt
-    simp [hasArm, hini]
+  · exact dispatch_correct d hI e hlt (hasArm_of_initial d e hini)
 
 /-! ## Non-vacuity -/
 
-/-- state 0 initial, state 1 inlined (single predecessor), state 2 with two predecessors,
-state 3 initial (gets the `_` arm) -/
+/-- state 0 initial, state 1 inlined (single predecessor 0, reached through exactly one arm),
+state 2 with two predecessors, state 3 initial (gets the `_` arm) -/
 def exampleDfa : DFA Trans :=
-  [ { initial := true },
-    { preds := [0] },
+  [ { initial := true, chars := [(97, .goto 1), (98, .goto 2)] },
+    { preds := [0], chars := [(98, .goto 2)] },
     { preds := [0, 1] },
     { initial := true } ]
 
-example : InitialNotInlined exampleDfa := by
-  unfold InitialNotInlined
+example : InitialNotInlined exampleDfa := initialNotInlined exampleDfa
+
+example : inlinedStates exampleDfa = [1] := by
+  decide
+
+/-- a single predecessor is not enough: state 1 is reached from state 0 through two arms
+(a character arm and a range arm), so it keeps its own arm -/
+def exampleDfaTwoSites : DFA Trans :=
+  [ { initial := true, chars := [(97, .goto 1)], ranges := [(48, 57, .goto 1)] },
+    { preds := [0] } ]
+
+example : inlinedStates exampleDfaTwoSites = [] := by
+  decide
+
+example : stateArms exampleDfaTwoSites = [(Pat.num 0, 0), (Pat.wild, 1)] := by
   decide
 
 example : dispatch (stateArms exampleDfa) (renumber (inlinedStates exampleDfa) 2) = some 2 := by
